@@ -1,6 +1,149 @@
 /-
-  Property C02 — property theorems only (helper lemmas live next to the model).
-  Stub: nothing claimed yet.
+  Property C02 — bounded queue: a blocked push/pop is always woken (no lost wake-up, no deadlock);
+  the timed exclusive pop returns by its deadline.  Property theorems only; same model as C01
+  (Babylon/BQ/Model.lean: futex_wait re-checks the word, wake_all wakes every sleeper of the slot,
+  spurious wake-ups allowed, timeouts are clock events), lemmas in Babylon/BQ/{Wake,WakeStep,Progress,
+  Timed}.lean.  Quantification as in C01: all interleavings, thread counts, capacities 2^bits, client
+  programs within the contract, `Ver16Faithful` steps.
+
+  What is proved, and what is not:
+    bq_sleep_sound        proved (futex level, no assumption on pairing): a sleeper's slot still
+                          carries the waiter bit, or a thread is committed to wake_all on that slot.
+    bq_guard_stable       proved.
+    bq_no_stuck_partial   proved: no cyclic wait — whenever a thread is in a blocking wait, some thread
+                          inside an operation is not waiting (and its next action is enabled), or some
+                          waiter's awaited version is present, or a slot is ready for a ticket no call
+                          has requested yet (the client owes the matching operation: unbalanced program).
+    bq_timed_bound        proved: remaining timeout ≤ timeout of the call, expiry test ends the wait.
+    NOT proved (kept visible below as `bq_no_stuck` / `bq_wake_pending`): that a sleeper whose awaited
+    version is present *while the waiter bit is still set* is owed a wake-up by the batch waker that
+    stored that version (relaxed 16-bit store; seq_cst fence; re-load; CAS-clear; wake_all), under the
+    pairing rule USE_FUTEX_WAIT ⇒ USE_FUTEX_WAKE on the opposite side.  For the single-element waker
+    this is `bq_sleep_sound` (the exchange returns and clears the waiter bit atomically).  The batch
+    case is covered by the correspondence (lock-step replay: the implementation performs every wake-up
+    of the model; VRT deadlock verdicts on balanced programs incl. weak-memory mode) and by the
+    generated obligations `gen_wake_code` / `gen_batch_wake_fence`.
 -/
+import Babylon.BQ.Spec
+import Babylon.BQ.Skel
+import Babylon.BQ.Examples
+
 namespace Babylon.Properties.C02
+open Babylon.BQ Babylon.Core Babylon.Gen.BQ
+
+/-! ### generated obligations on the wake-up code -/
+/-- waiter: load; CAS(version → version|WAITER); futex_wait on the combined word; re-load.
+single waker: exchange(release) then wake_all; batch waker: relaxed load, CAS-clear (relaxed), wake_all -/
+theorem gen_wake_code :
+    skel_block_slow = Skel.block_slow ∧ skel_spin_slow = Skel.spin_slow ∧ skel_wait = Skel.wait ∧
+    skel_wakeup_waiters = Skel.wakeup_waiters ∧ skel_set_version_and_wakeup = Skel.set_version_and_wakeup ∧
+    waiterInc = 65536 ∧ waiterThreshold = 65535 ∧ spinUsleep = 1000 := by decide
+/-- the batch releases end with: release fence, relaxed version stores, **seq_cst fence**, wakeup_waiters -/
+theorem gen_batch_wake_fence :
+    skel_deal_n = Skel.deal_n ∧ skel_try_deal_n = Skel.try_deal_n ∧
+    ords_deal_n = [.rlx, .acq, .rel, .rlx, .sc] ∧ ords_try_deal_n = [.rlx, .rlx, .rlx, .acq, .rel, .rlx, .sc] ∧
+    (Skel.deal_n.drop 4 = [.fence .rel, .call "mark_tsan_release", .call "set_version", .fence .sc, .call "wakeup_waiters"]) := by
+  decide
+/-- the compensating paths never wake and never futex-wait; the timed pop futex-waits and is exclusive -/
+theorem gen_pairing_sites :
+    compFlags = [true, false, true, false] ∧ timedFlags = [true, false] ∧
+    skel_deal_n_comp = Skel.deal_n_comp ∧ skel_timed_pop_n = Skel.timed_pop_n ∧ timedWaitsOnIndexPlusNum = 1 := by decide
+
+/-! ### no lost wake-up at the futex level -/
+/-- **bq_sleep_sound.**  (S0) a thread hands to futex_wait only a word value with the waiter bit set;
+(S1) while a thread sleeps on a slot, that slot's waiter bit is still set — so the next releaser that
+exchanges the word, or re-loads it after its stores, sees it — or some thread has consumed the bit and is
+committed to `wake_all` on that slot (it is at the wake-up call itself); the wake-up, when performed, makes
+every sleeper of the slot runnable (`Step`/`wakeAll`). -/
+theorem bq_sleep_sound (c : Cfg) (y : Sys) (h : ReachF c y) :
+    (∀ t cur, (y.s.pc t).waitVal = some cur → waiterThreshold < cur) ∧
+    (∀ t sl, (y.s.pc t).asleepOn c sl → y.s.wbit sl = true ∨ ∃ u, (y.s.pc u).strong c sl) :=
+  ⟨(sinv_reach h).s0, (sinv_reach h).s1⟩
+
+/-- the kernel's re-check: a thread falls asleep only if the word still equals the value it registered with -/
+theorem bq_sleep_rechecks (c : Cfg) (s s' : State) (t : Nat) (inp : Inp) (l : Act) (x : WCtx) (cur : Nat)
+    (hp : s.pc t = .wait x (.fwait cur)) (h : stepThread c s t inp = some (s', l))
+    (hs : s'.pc t = .wait x (.asleep cur)) : s.word (x.slot c) = cur := by
+  simp only [stepThread, hp] at h
+  split at h
+  · assumption
+  · simp only [Option.some.injEq, Prod.mk.injEq] at h
+    rw [← h.1] at hs; simp [State.setPc, upd] at hs
+
+/-- **bq_guard_stable.**  Once the version a ticket holder waits for is present it stays until the holder
+itself releases the ticket (so a fair scheduler lets every such waiter proceed). -/
+theorem bq_guard_stable (c : Cfg) (y y' : Sys) (hy : ReachF c y) (h : StepF c y y') (t : Nat) (sd : Side) (i : Nat)
+    (hv : y.s.ver (slotOf c i) = expVer c sd i) (hh' : (y'.s.pc t).held sd i) :
+    y'.s.ver (slotOf c i) = expVer c sd i := guard_stable hy h t sd i hv hh'
+
+/-- slot versions never decrease -/
+theorem bq_version_monotone (c : Cfg) (y y' : Sys) (hy : ReachF c y) (h : StepF c y y') (sl : Nat) :
+    y.s.ver sl ≤ y'.s.ver sl := step_ver_mono (inv_reach hy) h sl
+
+/-- **bq_no_stuck_partial** (no cyclic wait).  If some thread is inside a blocking wait then
+(1) a thread that is inside an operation is *not* in a blocking wait, or
+(2) some blocked thread's awaited version is present, or
+(3) a slot is ready for a ticket that no call has requested yet (the program is not balanced yet).
+Missing for the full `bq_no_stuck`: in case (2) a *sleeping* waiter is owed a wake-up (`bq_wake_pending`). -/
+theorem bq_no_stuck_partial (c : Cfg) (y : Sys) (h : ReachF c y) (t sl E : Nat)
+    (hw : (y.s.pc t).waitingOn c = some (sl, E)) : Progress c y := no_cyclic_wait (inv_reach h) E t sl hw
+
+/-- in case (1) the thread can indeed move: its next action (or its return) is enabled -/
+theorem bq_active_enabled (c : Cfg) (y : Sys) (u : Nat) (hne : y.s.pc u ≠ .idle) (hw : (y.s.pc u).waitingOn c = none) :
+    ∃ y', Step c y y' := active_enabled c y u hne hw
+
+/-- for balanced programs case (3) cannot persist: when as many pops as pushes have been requested and
+nobody holds a ticket, every issued ticket has been served and the next version of every slot … is the
+statement `bq_all_served` of C01; here: a ready slot for an unissued *pop* ticket `i` means push ticket `i`
+was completed, i.e. an element is queued that nobody asked for yet. -/
+theorem bq_unissued_pop_means_element (c : Cfg) (y : Sys) (h : ReachF c y) (i : Nat)
+    (hv : y.s.ver (slotOf c i) = expVer c .pop i) : y.s.pushedV i = some (y.s.val (slotOf c i)) :=
+  (inv_reach h).valRd i hv
+
+/-
+  Full statements not proved (see the header):
+
+  theorem bq_wake_pending (c) (y) (h : ReachF c y) (t sl) (x cur) :
+      y.s.pc t = .wait x (.asleep cur) → x.isTimed = false → y.s.ver (x.slot c) = x.E c →
+      ∃ u, (y.s.pc u).strong c (x.slot c) ∨ (u is a batch releaser with USE_FUTEX_WAKE that stored x.E c into the slot
+                                             and has not finished wakeup_waiters for it)
+
+  theorem bq_no_stuck (c) (y) (h : ReachF c y) : (∃ t, y.s.pc t ≠ .idle) →
+      (∃ u y', u's step leads to y' and is not a futile wait iteration) ∨ (a needed ticket is unissued)
+-/
+
+/-! ### timed exclusive pop -/
+/-- **bq_timed_bound.**  The relative timeout a thread in `try_pop_n_exclusively_until` still waits with
+(the value it hands to futex_wait — checked against the real timeout on every replayed trace) never exceeds the
+timeout of the call: it performs no wait reaching past `call time + timeout` as measured by its own clock
+readings. -/
+theorem bq_timed_bound (c : Cfg) (y : Sys) (h : ReachF c y) (t tmo : Nat) (ht : (y.s.pc t).timedTmo = some tmo) :
+    ∃ wk n T, y.cur t = some (.timedPopN wk n T) ∧ tmo ≤ T := tinv_reach h t tmo ht
+
+/-- a clock reading at or past the remaining time ends the wait: the thread goes on to `try_pop_n` and returns
+what is available then -/
+theorem bq_timed_expiry (c : Cfg) (s : State) (u : Nat) (inp : Inp) (wk : Bool) (i num tb tmo cur : Nat)
+    (hp : s.pc u = .wait (.timed wk i num tb tmo) (.clk1 cur)) (hexp : tmo ≤ inp.now - tb) :
+    ∃ s' l, stepThread c s u inp = some (s', l) ∧
+      s'.pc u = .nIdx .pop { conc := false, wake := wk, acc := 0, g2 := none, back := none } num :=
+  timed_expiry c s u inp wk i num tb tmo cur hp hexp
+
+/-- the remaining timeout only shrinks along the thread's own steps -/
+theorem bq_timed_shrinks (c : Cfg) (s s' : State) (u : Nat) (inp : Inp) (l : Act)
+    (h : stepThread c s u inp = some (s', l)) (tmo' : Nat) (ht : (s'.pc u).timedTmo = some tmo') :
+    ∃ tmo, (s.pc u).timedTmo = some tmo ∧ tmo' ≤ tmo := step_timedTmo c s s' u inp l h tmo' ht
+
+/-! ### the abstract specification is refined (used by C07, C10, C16, C17, C20) -/
+theorem bq_refines_spec (c : Cfg) (y y' : Sys) (hy : ReachF c y) (h : StepF c y y') :
+    Spec.QStep (Spec.absQ y) (Spec.absQ y') := Spec.refines hy h
+
+/-! ### non-vacuity -/
+/-- a reachable state with a consumer asleep on slot 0 of the empty queue, waiter bit set (premise of `bq_sleep_sound`) -/
+example : ∃ y t, ReachF exCfg y ∧ (y.s.pc t).asleepOn exCfg 0 ∧ y.s.wbit 0 = true :=
+  ⟨sl5, 1, sl5_reach, ⟨xw, 65536, rfl, rfl⟩, rfl⟩
+/-- that consumer is in a blocking wait for version 1 of slot 0 (premise of `bq_no_stuck_partial`); here case (3)
+applies: slot 0 is ready for push ticket 0, which nobody has requested -/
+example : (sl5.s.pc 1).waitingOn exCfg = some (0, 1) ∧ sl5.s.idx .push ≤ 0 ∧ sl5.s.ver (slotOf exCfg 0) = expVer exCfg .push 0 :=
+  ⟨rfl, Nat.le_refl _, rfl⟩
+
 end Babylon.Properties.C02
